@@ -426,6 +426,11 @@ func c01(r *vlib.Run) int {
 			}
 			c.StallAt = int64(b.Len() - 5000 - 1300*(k%4))
 		}
+		if k%2 == 1 {
+			// no final newline: the reader meets the end of the file, with the last bytes still in its hands, while
+			// every queue towards the stalled consumer is full
+			b.WriteString("END of file without a final newline")
+		}
 		c.Content = b.Bytes()
 		c.Classes = []string{"consumer-stalls-at-the-tail", "numbered"}
 		c.StallS = 7.5
